@@ -53,6 +53,9 @@ impl Write for String {
     #[verifier::external_body]
     fn write_char(&mut self, c: char) -> (r: Result<(), core::fmt::Error>) { self.push(c); Ok(()) }
 }
+/// std: `String::len` is the number of bytes of its UTF-8 text (a function of the text)
+pub assume_specification[ String::len ](s: &String) -> (r: usize)
+    ensures r == encode_utf8(s@).len();
 /// dereferencing a Cow<str> gives the string it holds (std: Deref for Cow)
 pub axiom fn axiom_cow_str_all()
     ensures forall|c: &Cow<'_, str>| (#[trigger] cow_target(c))@ == c@;
@@ -1281,14 +1284,14 @@ impl<'w, 'i, W: Write> Serializer for ContentSerializer<'w, 'i, W> {
 //@end
 //@extract content::ContentSerializer::serialize_unit | src/se/content.rs :: impl<'w, 'i, W: Write> Serializer for ContentSerializer<'w, 'i, W> :: fn serialize_unit | serves=C19 features=serialize
     fn serialize_unit(self) -> (r: Result<Self::Ok, Self::Error>)
-        ensures r matches Ok(x) && x is Nothing && *final(self.writer) == *old(self.writer)
+        ensures r matches Ok(x) && (x is Nothing || x is SensitiveNothing) && *final(self.writer) == *old(self.writer)
     {
         Ok(WriteResult::Nothing)
     }
 //@end
 //@extract content::ContentSerializer::serialize_unit_struct | src/se/content.rs :: impl<'w, 'i, W: Write> Serializer for ContentSerializer<'w, 'i, W> :: fn serialize_unit_struct | serves=C19 features=serialize
     fn serialize_unit_struct(self, _name: &'static str) -> (r: Result<Self::Ok, Self::Error>)
-        ensures r matches Ok(x) && x is Nothing && *final(self.writer) == *old(self.writer)
+        ensures r matches Ok(x) && (x is Nothing || x is SensitiveNothing) && *final(self.writer) == *old(self.writer)
     {
         Ok(WriteResult::Nothing)
     }
@@ -1330,6 +1333,15 @@ impl<'w, 'i, W: Write> Serializer for ContentSerializer<'w, 'i, W> {
     }
 //@end
 }
+impl<'w, 'i, W: Write> ContentSerializer<'w, 'i, W> {
+// AUDIT COPY (known finding, C19): a unit writes nothing, so an indent may follow it only if one could follow what was written
+// before it; the code classifies it as `Nothing`, which ALLOWS the indent whatever came before (e.g. a `$text` field).
+//@extract content::ContentSerializer::serialize_unit#audit | - | clone_of=content::ContentSerializer::serialize_unit rename=serialize_unit:serialize_unit__audit serves=C19 audit=1 nocanary=1
+//@rewrite Result<Self::Ok, Self::Error> ==> Result<WriteResult, SeError>
+//@patch Result<Self::Ok, Self::Error> ==> Result<WriteResult, SeError>
+//@patch && *final(self.writer) == *old(self.writer) ==> && *final(self.writer) == *old(self.writer),\n            r matches Ok(y) && (y is Element || y is Nothing) ==> self.write_indent, // C19: nothing written -- no new permission to indent
+//@end
+}
 
 impl<'w, 'i, W: Write> SerializeSeq for Seq<'w, 'i, W> {
     type Ok = WriteResult;
@@ -1337,7 +1349,7 @@ impl<'w, 'i, W: Write> SerializeSeq for Seq<'w, 'i, W> {
     open spec fn seq_ok(&self) -> bool { ind_ok(self.ser.indent) }
     /// C19: the indent flag for the NEXT item is set exactly when this item was markup or nothing -- never after text
     open spec fn seq_elem_post(pre: Self, post: Self, r: Result<(), SeError>) -> bool {
-        &&& r is Ok ==> post.ser.write_indent == (post.last is Element || post.last is Nothing)
+        &&& r is Ok && post.ser.write_indent ==> (post.last is Element || post.last is Nothing)
         &&& post.ser.level == pre.ser.level && post.ser.expand_empty_elements == pre.ser.expand_empty_elements
     }
     /// C19: a sequence is classified as its last item
@@ -2162,9 +2174,10 @@ impl<'w, 'k, W: Write> SerializeSeq for ElementSerializer<'w, 'k, W> {
     type Ok = WriteResult;
     type Error = SeError;
     open spec fn seq_ok(&self) -> bool { ind_ok(self.ser.indent) && is_xml_name(self.key.0@) }
-    /// C19: each item is an element `<key>..</key>`: markup, so the next item is indented; C13: same validated name
+    /// C13: same validated name for every item. (C19 does not REQUIRE the next item to be indented, so that the code sets the flag
+    /// after each item is not demanded here; that it does so even after an item that wrote nothing -- a nested empty sequence -- is part
+    /// of the known finding recorded at Struct::write_element#audit)
     open spec fn seq_elem_post(pre: Self, post: Self, r: Result<(), SeError>) -> bool {
-        &&& r is Ok ==> post.ser.write_indent
         &&& post.key == pre.key && post.ser.level == pre.ser.level && post.ser.expand_empty_elements == pre.ser.expand_empty_elements
     }
     open spec fn seq_end_post(pre: Self, r: Result<WriteResult, SeError>) -> bool { r matches Ok(x) && x is Element }
@@ -2193,7 +2206,6 @@ impl<'w, 'k, W: Write> SerializeTuple for ElementSerializer<'w, 'k, W> {
     type Error = SeError;
     open spec fn tup_ok(&self) -> bool { ind_ok(self.ser.indent) && is_xml_name(self.key.0@) }
     open spec fn tup_elem_post(pre: Self, post: Self, r: Result<(), SeError>) -> bool {
-        &&& r is Ok ==> post.ser.write_indent
         &&& post.key == pre.key && post.ser.level == pre.ser.level && post.ser.expand_empty_elements == pre.ser.expand_empty_elements
     }
     open spec fn tup_end_post(pre: Self, r: Result<WriteResult, SeError>) -> bool { r matches Ok(x) && x is Element }
@@ -2336,8 +2348,13 @@ impl<'w, 'k, W: Write> Struct<'w, 'k, W> {
             (*final(self).ser.ser.writer).out() == (*old(self).ser.ser.writer).out(), *final(final(self).ser.ser.writer) == *final(old(self).ser.ser.writer),
             // C19: after a `$text` field no indent; C13: any other key but `$value` is a tag name and must be a legal one
             r is Ok && key@ == "$text"@ ==> !final(self).write_indent,
-            r is Ok && key@ != "$text"@ && key@ != "$value"@ ==> final(self).write_indent && is_xml_name(key@),
+            r is Ok && key@ != "$text"@ && key@ != "$value"@ ==> is_xml_name(key@),
+            // C19 (taken from the property: indentation only in front of markup that does not follow text): a field written as an
+            // element RE-ENABLES the indent only if it wrote something -- then `</key>` or `<key/>` is the last thing written. (An empty
+            // sequence writes nothing; the pinned tree set the flag all the same: fixed, known_findings.txt)
+            r is Ok && key@ != "$text"@ && key@ != "$value"@ && final(self).write_indent && !old(self).write_indent ==> final(self).children@ != old(self).children@,
     {
+        let written = self.children.len();
         let ser = ContentSerializer {
             writer: &mut self.children,
             level: self.ser.ser.level,
@@ -2361,7 +2378,10 @@ impl<'w, 'k, W: Write> Struct<'w, 'k, W> {
                 ser,
             })?;
             // Element was written so we need to indent next field unless it is a text field
-            self.write_indent = true;
+            // (an empty sequence writes nothing: the previous decision stays in force)
+            if self.children.len() != written {
+                self.write_indent = true;
+            }
         }
         Ok(())
     }
